@@ -447,13 +447,31 @@ def gen_floor(rng, idx, big=False, groups=True, congested=False, serial=False):
             elif handlerlike:
                 d = rng.choice([x for x in handlerlike if B.kinds[x] in ('handler', 'processor', 'sink')] or handlerlike)
                 ops.append(['offset', str(d), str(rng.choice([-4, 2, 8]))])
-    # every op becomes a script of its own, scheduled at a random time (several at the same instant)
+    # every op becomes a script of its own, scheduled at a random time (several at the same instant);
+    # blocking / shutdown / capacity reductions are usually undone later (so that the unblocking
+    # notifications are exercised)
     times = [0, 4, 8, 8, 12, 16, 16, 20, 24, 32, 32, 40, 48, 56, 64, 80]
-    for k, op in enumerate(ops):
+    sched = []
+    extra = []
+    for op in ops:
+        t = rng.choice(times)
+        sched.append((t, op))
+        undo = None
+        if op[0] == 'block' and op[2] == '1':
+            undo = ['block', op[1], '0']
+        elif op[0] == 'shutdown':
+            undo = ['restore', op[1]]
+        elif op[0] == 'schedfailrel':
+            undo = ['restore', op[1]]
+        elif op[0] == 'addres' and int(op[2]) < 0:
+            undo = ['addres', op[1], str(-int(op[2]))]
+        if undo is not None and rng.random() < 0.75:
+            extra.append((t + rng.choice([0, 4, 8, 12, 24, 40]), undo))
+    sched += extra
+    for k, (t, op) in enumerate(sched):
         L.append(['script', str(k)] + op)
-    # unblock / restore towards the end so that lines drain (still arbitrary)
-    for k, op in enumerate(ops):
-        L.append(['ext', 'sched', str(rng.choice(times)), '-2', str(k), str(pick_prio(rng))])
+    for k, (t, op) in enumerate(sched):
+        L.append(['ext', 'sched', str(t), '-2', str(k), str(pick_prio(rng))])
     horizon = rng.choice([48, 64, 96, 128]) if not big else rng.choice([128, 200])
     if rng.random() < 0.3:
         a = rng.choice([8, 16, 20, 33])
@@ -474,3 +492,98 @@ def gen_serial(rng, idx, big=False):
 
 
 FAMILIES.update({'floor': gen_floor, 'floorc': gen_floor_congested, 'serial': gen_serial})
+
+
+# ----------------------------------------------------------------------------------------- sys
+def gen_sys(rng, idx, big=False):
+    """Late creation: assets of every kind constructed before the first run, between runs and from
+    inside events (then initialised immediately), wired to existing devices."""
+    L = [['scenario', str(idx)], ['seed', str(rng.randrange(1000)), str(rng.choice(WMODS))]]
+    if rng.random() < 0.5:
+        L.append(['idoff', str(rng.randrange(30))])
+    L.append(['var', '0', str(rng.randint(0, 9))])
+    ndev = 0
+    kinds = []
+    nsched = nsens = nmaint = 0
+
+    def dev_line(kind, ups):
+        nonlocal ndev
+        kw = {}
+        if kind == 'source':
+            kw = dict(cyc=rng.choice([2, 4, 8]), budget=rng.choice(['inf', '4', '8', 'def']), pval=rng.choice([0, 3]))
+        elif kind in ('handler', 'processor', 'sink'):
+            kw = dict(up=','.join(map(str, ups)), cyc=rng.choice([0, 4, 8]))
+            if kind == 'processor':
+                kw.update(nshut=1, nrest=1)
+            if kind == 'sink':
+                kw['collect'] = rng.choice([0, 1])
+        elif kind == 'buffer':
+            kw = dict(up=','.join(map(str, ups)), cap=rng.choice(['def', '1', '3']), delay=rng.choice([0, 4]))
+        elif kind == 'gate':
+            kw = dict(up=','.join(map(str, ups)), pred='always')
+        elif kind == 'batcher':
+            kw = dict(up=','.join(map(str, ups)), bsz=rng.choice(['-', '2']))
+        ndev += 1
+        kinds.append(kind)
+        return ['dev', kind] + [f'{k}={v}' for k, v in kw.items()]
+
+    def other_line():
+        nonlocal nsched, nsens, nmaint
+        c = rng.random()
+        if c < 0.3:
+            nsched += 1
+            return ['sched', 'cyc=' + rng.choice(['def', '0']), 'tt=' + ','.join(f'{rng.choice([3, 8, 16])}:{rng.randint(0, 2)}' for _ in range(rng.randint(1, 3)))]
+        if c < 0.6:
+            nsens += 1
+            return ['sensor', 'per', 'interval=' + str(rng.choice([3, 8])), 'cap=' + rng.choice(['def', '2']), 'vars=0', 'cbs=1']
+        if c < 0.8:
+            nmaint += 1
+            return ['maint', 'cap=' + rng.choice(['def', '1']), 'value=0']
+        return ['cms']
+
+    solid = set()       # devices that certainly exist (created before the start or by an `ext create`)
+
+    def feeders():
+        return [i for i, k in enumerate(kinds) if k not in ('sink',) and i in solid]
+
+    # before the start: a small line
+    L.append(['asset'] + dev_line('source', []))
+    for _ in range(rng.randint(0, 2)):
+        k = rng.choice(['handler', 'processor', 'buffer'])
+        L.append(['asset'] + dev_line(k, [ndev - 1]))
+    if rng.random() < 0.7:
+        L.append(['asset'] + dev_line('sink', [ndev - 1]))
+    solid.update(range(ndev))
+    if rng.random() < 0.5:
+        L.append(['asset'] + other_line())
+    # creations
+    nscripts = 0
+
+    def creation():
+        if rng.random() < 0.7:
+            k = rng.choice(['source', 'handler', 'processor', 'buffer', 'sink', 'sink', 'gate', 'batcher'])
+            ups = [] if k == 'source' else rng.sample(feeders(), 1)
+            return dev_line(k, ups), True
+        return other_line(), False
+    # created between runs (from outside) ...
+    for _ in range(rng.randint(1, 4)):
+        if rng.random() < 0.6:
+            L.append(['run', str(rng.choice([0, 8, 12, 20]))])
+        c, isdev = creation()
+        L.append(['ext', 'create'] + c)
+        if isdev:
+            solid.add(ndev - 1)
+    # ... and from inside events (wired to devices that certainly exist)
+    for _ in range(rng.randint(1, 4)):
+        c, isdev = creation()
+        L.append(['script', str(nscripts), 'create'] + c)
+        L.append(['ext', 'schedrel', str(rng.choice([0, 3, 4, 8, 12, 20, 24])), '-2', str(nscripts), str(pick_prio(rng))])
+        nscripts += 1
+    L.append(['run', str(rng.choice([32, 48, 64]))])
+    if rng.random() < 0.4:
+        L.append(['run', str(rng.choice([8, 16]))])
+    L.append(['end'])
+    return L
+
+
+FAMILIES['sys'] = gen_sys
